@@ -15,6 +15,9 @@ import sys
 
 VERIF = os.path.dirname(os.path.dirname(os.path.abspath(__file__)))
 PY = '/venv/bin/python'
+sys.path.insert(0, os.path.dirname(os.path.abspath(__file__)))
+import _snap  # noqa: E402
+SNAP = _snap.snapshot()
 
 
 def sh(cmd, cwd=None, env=None, timeout=900):
@@ -58,7 +61,7 @@ def run(src, wt, pid, store):
     rc_m, out_m = sh([PY, demo], cwd=wt, env=env)
     fired = {}
     for p in props:
-      rc_c, out_c = sh([PY, os.path.join(VERIF, 'tflsa', 'check.py'), p,
+      rc_c, out_c = sh([PY, os.path.join(SNAP, 'tflsa', 'check.py'), p,
                         '--repo', wt, '--no-evidence'])
       if rc_c != 0:
         lines = [l for l in out_c.splitlines()
